@@ -310,11 +310,69 @@ DIR_NAMES = ["d", "e", "lib"]
 LINK_NAMES = ["ln", "link2"]
 
 
-def gen_history(rng, nrev):
+def _under(p, d):
+    return p == d or p.startswith(d + "/")
+
+
+def _mv(tree, src, dst):
+    for p in sorted(tree):
+        if _under(p, src):
+            tree[dst + p[len(src) :]] = tree.pop(p)
+
+
+def _rm(tree, path):
+    for p in sorted(tree):
+        if _under(p, path):
+            tree.pop(p)
+
+
+def _gen_replace(rng, tree, actions):
+    """One commit frees a path X (remove it, rename it away, or swap) and moves another,
+    otherwise unchanged, entry Y (file, symlink-free directory, ...) onto X.  Appends the
+    actions and updates `tree`; returns True if something was generated."""
+    paths = sorted(p for p, (k, _) in tree.items() if p and k in ("file", "directory"))
+    rng.shuffle(paths)
+    for x in paths:
+        ys = [y for y in paths if y != x and not _under(y, x) and not _under(x, y) and not _under(x.rsplit("/", 1)[0] if "/" in x else "", y)]
+        # (no symlinks inside a moved directory: MemoryTree cannot move them)
+        ys = [y for y in ys if not any(_under(p, y) and k == "symlink" for p, (k, _) in tree.items())]
+        xs_ok = not any(_under(p, x) and k == "symlink" for p, (k, _) in tree.items())
+        if not ys:
+            continue
+        y = rng.choice(ys)
+        how = rng.choice(["remove", "remove", "away", "swap"])
+        if how != "remove" and not xs_ok:
+            how = "remove"
+        if how == "remove":
+            actions.append(["remove", x])
+            _rm(tree, x)
+        elif how == "away":
+            z = "moved-" + x.replace("/", "-")
+            if z in tree:
+                continue
+            actions.append(["rename", x, z])
+            _mv(tree, x, z)
+        else:
+            tmp = "swap.tmp"
+            if tmp in tree:
+                continue
+            actions.append(["rename", x, tmp])
+            _mv(tree, x, tmp)
+        actions.append(["rename", y, x])
+        _mv(tree, y, x)
+        if how == "swap":
+            actions.append(["rename", "swap.tmp", y])
+            _mv(tree, "swap.tmp", y)
+        return True
+    return False
+
+
+def gen_history(rng, nrev, moves=False):
     """A JSON-able history: [{"revid", "parents", "actions"}], parents are earlier
     entries (the list is a topological order).  Trees are tracked so that every action
     is valid; contents come from a small pool so that equal blobs/trees under different
-    (file id, revision) keys are common."""
+    (file id, revision) keys are common.  `moves`: also commits that free a path and move
+    another entry onto it (file<->dir replacements, swaps) and directory renames."""
     revs = []
     trees = {}  # revid -> {path: (kind, fid)}
     ctr = [0]
@@ -339,7 +397,15 @@ def gen_history(rng, nrev):
             tree = dict(trees[p1])
             actions = []
         nact = rng.randint(1, 4) if i else rng.randint(2, 6)
+        frozen = set()  # paths the replace step of this commit used
+        if moves and i and rng.random() < 0.45:
+            before = set(tree)
+            if _gen_replace(rng, tree, actions):
+                frozen = before | set(tree)
+                nact = rng.randint(0, 2)
         for _ in range(nact):
+            if frozen and rng.random() < 0.7:
+                break  # mostly leave the moved entries otherwise unchanged
             dirs = [p for p, (k, _) in tree.items() if k == "directory"]
             files = [p for p, (k, _) in tree.items() if k == "file"]
             links = [p for p, (k, _) in tree.items() if k == "symlink"]
@@ -373,13 +439,13 @@ def gen_history(rng, nrev):
             elif choice == "rename" and files:
                 src = rng.choice(files)  # (MemoryTree cannot move symlinks)
                 dst = join(parent, rng.choice(FILE_NAMES + LINK_NAMES))
-                touched = {a[1] for a in actions} | {a[2] for a in actions if a[0] == "rename"}
+                touched = {a[1] for a in actions} | {a[2] for a in actions if a[0] == "rename"} | frozen
                 if dst not in tree and src not in touched:
                     actions.append(["rename", src, dst])
                     tree[dst] = tree.pop(src)
             elif choice == "remove" and (files or links):
                 victim = rng.choice(files + links)
-                touched = {a[1] for a in actions} | {a[2] for a in actions if a[0] == "rename"}
+                touched = {a[1] for a in actions} | {a[2] for a in actions if a[0] == "rename"} | frozen
                 if victim not in touched:
                     actions.append(["remove", victim])
                     tree.pop(victim)
@@ -434,8 +500,13 @@ def build_history(t, history):
                 elif k == "rename":
                     tree.rename_one(a[1], a[2])
                 elif k == "remove":
+                    is_dir = tree.kind(a[1]) == "directory"
                     tree.unversion([a[1]])
-                    tree._file_transport.delete(a[1])  # (unversion leaves the file behind)
+                    # (unversion leaves the file behind)
+                    if is_dir:
+                        tree._file_transport.delete_tree(a[1])
+                    else:
+                        tree._file_transport.delete(a[1])
                 else:
                     raise AssertionError(k)
             bb._do_commit(
@@ -671,9 +742,9 @@ def build_git_history(git, history, unusual=None):
             elif k == "chmod":
                 cur[a[1]] = (GIT_EXEC if a[2] else GIT_FILE, cur[a[1]][1])
             elif k == "rename":
-                cur[a[2]] = cur.pop(a[1])
+                _mv(cur, a[1], a[2])
             elif k == "remove":
-                cur.pop(a[1])
+                _rm(cur, a[1])
             elif k == "mkdir":
                 pass
             else:
